@@ -4,6 +4,8 @@
 # runs the demo (must fail with the patch, pass without) and the property's check against it.
 set -u
 D=/verif/seeded/$1; P=$2; TIER=${3:-quick}
+# VERIF_ROOT: run the check from another worktree of /verif (own tree lock, so several seed tests can run side by side)
+VR=${VERIF_ROOT:-/verif}
 WT=/var/tmp/seedwt-$1
 git -C /repo worktree remove --force $WT 2>/dev/null
 git -C /repo worktree add -q $WT HEAD || exit 3
@@ -11,5 +13,5 @@ echo "== demo on clean tree (expect 0)"; (cd $WT && SEED_REPO=$WT PYTHONPATH=$WT
 (cd $WT && git apply $D/patch.diff) || { echo "patch does not apply"; git -C /repo worktree remove --force $WT; exit 3; }
 echo "== demo with patch (expect non-zero)"; (cd $WT && SEED_REPO=$WT PYTHONPATH=$WT /venv/bin/python $D/demo.py >/dev/null 2>&1; echo "exit $?")
 echo "== check $P --tier $TIER with patch (expect VIOLATION)"
-(cd /verif && VERIF_REPO=$WT ./check $P --tier $TIER 2>&1 | tail -6; echo "exit ${PIPESTATUS[0]}")
+(cd $VR && VERIF_REPO=$WT ./check $P --tier $TIER 2>&1 | tail -6; echo "exit ${PIPESTATUS[0]}")
 git -C /repo worktree remove --force $WT
